@@ -11,6 +11,9 @@ from . import c19_est as est
 ORCH = "sktime.benchmarking.orchestration"
 
 
+S2_DOTTED = "s2.v1"
+
+
 class C19(Harness):
     pid = "C19"
     labels = (
@@ -226,7 +229,7 @@ class C19(Harness):
             warnings.simplefilter("ignore")
             results = res.HDDResults(path)
         dsets = [data.RAMDataset(self._data(W, seed=0), "dsA"), data.RAMDataset(self._data(W, seed=1), "dsB")]
-        strategies = [strat.TSRStrategy(est.CountingRegressor(slope=2.0), name="s1"), strat.TSRStrategy(est.CountingRegressor(slope=2.5), name="s2")]
+        strategies = [strat.TSRStrategy(est.CountingRegressor(slope=2.0), name="s1"), strat.TSRStrategy(est.CountingRegressor(slope=2.5), name=S2_DOTTED)]  # (a strategy name with a dot in it)
         o = orch.Orchestrator([tasks.TSRTask(target="target"), tasks.TSRTask(target="target")], dsets, strategies, self._mk(W, "kfold"), results)
         est.STATE.update(n=0, K=K, fits=0, predicts=0, log=[])
         crashed = False
@@ -269,7 +272,7 @@ class C19(Harness):
             # which (strategy, dataset, fold) iterations were complete after run 1
             need = lambda s, d, f: [os.path.join(s, d, "%s_test_%d.csv" % (s, f))] + ([os.path.join(s, d, "%s_train_%d.csv" % (s, f))] if cell["pot"] else []) + ([os.path.join(s, d, "%s_train_%d.pickle" % (s, f))] if cell["savefit"] else [])  # noqa
             missing = 0
-            for s in ("s1", "s2"):
+            for s in ("s1", S2_DOTTED):
                 for d in ("dsA", "dsB"):
                     for f in (0, 1):
                         if not all(p in before for p in need(s, d, f)):
@@ -344,7 +347,7 @@ class C19(Harness):
         df2 = pd.DataFrame({"noise": [float(50 - 7 * i) for i in range(6)], "dim_0": [float(1 + i) for i in range(6)], "target": [float(3 * i) for i in range(6)]})
         results2 = res.RAMResults()
         est.STATE.update(n=0, K=None, fits=0, predicts=0, log=[])
-        cv2 = split.SingleSplit(test_size=2, random_state=7, shuffle=True)
+        cv2 = split.SingleSplit(test_size=2, train_size=3, random_state=7, shuffle=True)  # (explicit sizes that do not cover all six instances)
         o2 = orch.Orchestrator([tasks.TSRTask(target="target", features=["dim_0"]), tasks.TSRTask(target="target", features=["dim_0"])],
                                [data.RAMDataset(df2, "dsA"), data.RAMDataset(df2, "dsB")],
                                [strat.TSRStrategy(est.CountingRegressor(slope=2.0), name="s1"), strat.TSRStrategy(est.CountingRegressor(slope=3.0), name="s2")], cv2, results2)
@@ -432,7 +435,7 @@ class C19(Harness):
                 P.check("stored-record-is-honest", idx == te3 and yp == self._honest((x, t), tr3, te3), {"what": "default features keep the frame's column order (first column = first feature)", "y_pred": yp})
             from sklearn.model_selection import train_test_split
 
-            tr2, te2 = train_test_split(list(range(6)), test_size=2, random_state=7, shuffle=True)
+            tr2, te2 = train_test_split(list(range(6)), test_size=2, train_size=3, random_state=7, shuffle=True)
             P.check("stored-record-is-honest", [r[:2] for r in out["shuffled"]] == [["s1", "dsA"], ["s1", "dsB"], ["s2", "dsA"], ["s2", "dsB"]], {"what": "one record per strategy and dataset"})
             for sname, dname, idx, yt, yp in out["shuffled"]:
                 slope = 2.0 if sname == "s1" else 3.0
@@ -444,6 +447,10 @@ class C19(Harness):
         total = out["total_calls"]
         per_iter_preds = 2 if cell["pot"] else 1
         P.check("final-store-equals-uninterrupted-run", out["ref"]["fits"] == 8 and out["ref"]["predicts"] == 8 * per_iter_preds and not out["ref"]["crashed"])
+        if cell["savefit"]:
+            pickles = sorted(k for k in (out["ref_store"] if isinstance(out["ref_store"], dict) else dict.fromkeys(out["ref_store"])) if str(k).endswith(".pickle"))
+            want = sorted(os.path.join(s_, d_, "%s_train_%d.pickle" % (s_, f_)) for s_ in ("s1", S2_DOTTED) for d_ in ("dsA", "dsB") for f_ in (0, 1))
+            P.check("final-store-equals-uninterrupted-run", pickles == want, {"what": "one saved fitted strategy per strategy, dataset and fold", "found": pickles[:8]})
         crashed = out["run1"]["crashed"]
         P.check("resume-produces-exactly-the-missing", crashed == bool(K <= total))
         P.check("resume-produces-exactly-the-missing", not out["run2"]["crashed"] and out["run2"]["fits"] == out["missing_after_run1"], {"fits_run2": out["run2"]["fits"], "missing": out["missing_after_run1"]})
